@@ -182,6 +182,27 @@ def machine_run(prop, streams=("random",)):
                 ctx.disagreements.append({"what": "model driver stopped after %d of %d cases" % (len(cm), len(cases)), "cfg": cfg.cfg_line()})
                 continue
             ndis = 0
+            # implementation-only twin runs (C16 / C17), all in one batch: every case in thorough, a third in quick
+            twin_out, twin_plan = None, {}
+            if prop in ("C16", "C17"):
+                flat = []
+                for kk, (case, a) in enumerate(zip(cases, ci)):
+                    tw = O.twin_cases(prop, case, a) if (ctx.thorough or ctx.broken or kk % 3 == 0) else []
+                    twin_plan[id(case)] = tw
+                    flat += [(id(case), tc) for (_, tc, _) in tw]
+                if flat:
+                    try:
+                        rc_t, out_t = C.run_lines([exe], [l for _, tc in flat for l in tc], timeout=240 if ctx.thorough else 60)
+                    except Exception:
+                        rc_t, out_t = -1, []
+                    outs = MM.split_cases(out_t)
+                    twin_out = {}
+                    if rc_t == 0 and len(outs) == len(flat):
+                        for (cid, _), o in zip(flat, outs):
+                            twin_out.setdefault(cid, []).append(o)
+                        ctx.stats["twin_runs"] = ctx.stats.get("twin_runs", 0) + len(flat)
+                    else:
+                        ctx.failures.append({"what": "a twin run of the implementation (same history, other logger / fill / copy arrangement) crashed or hung (rc=%s after %d of %d twins)" % (rc_t, len(outs), len(flat)), "cfg": cfg.cfg_line()})
             for case, a, b in zip(cases, ci, cm):
                 ctx.stats["evaluations"] += 1
                 ctx.stats["lines"] += len(a)
@@ -193,9 +214,12 @@ def machine_run(prop, streams=("random",)):
                         ctx.failures.append({"what": l, "case": case, "cfg": cfg.cfg_line()})
                         break
                 rerun = (lambda c, _exe=exe: (MM.run_impl(_exe, c) or None))
-                # the implementation-only twin runs (C16 / C17) cost extra executions: every case in thorough, a share in quick
-                use_twin = ctx.thorough or ctx.broken or (ctx.stats["evaluations"] % 3 == 0)
-                v = O.run(prop, case, a, rerun if use_twin else None)
+                v = O.run(prop, case, a, None)
+                if not v and twin_out is not None:
+                    for (tag, tc, meta), t in zip(twin_plan[id(case)], twin_out.get(id(case), [])):
+                        v = O.twin_verdict(prop, tag, meta, case, a, t)
+                        if v:
+                            break
                 if v and sum(1 for f_ in ctx.failures if "oracle" in f_) < 2:
                     def still(c, _exe=exe, _rerun=rerun):
                         r = MM.run_impl(_exe, c)
